@@ -192,8 +192,9 @@ unsigned int get_index_reg(struct instr *instruc, const char *mem, char reg[]) {
   bool plus = false;
   bool multiply = false;
   int len = strlen_int(mem);
-  // check closing bracket
-  if (mem[len - 1] != ']')
+  // check closing bracket (the first one ends the operand: "[rbx][rcx]" is
+  // not a memory operand)
+  if (mem[len - 1] != ']' || strchr(mem, ']') != mem + len - 1)
     return EXIT_FAILURE;
   // default sib_disp;
   instruc->sib_disp = SIB;
